@@ -57,7 +57,7 @@ ASSUMPTIONS = [
     "quick tier: tuples that share specification file, grouping and record with a tuple of smaller index run the light chain "
     "(template, schema, load, export, size, parse, re-export, one configuration round trip); the full chain runs once per class, and for every tuple in the thorough tier",
 ]
-FLOORS = {"step:defaults": 0.05, "step:values": 0.05, "nondefault": 0.04, "form:enum_name": 0.005, "form:bitfields": 0.025}
+FLOORS = {"step:defaults": 0.02, "step:values": 0.05, "nondefault": 0.04, "form:enum_name": 0.005, "form:bitfields": 0.025}
 
 AREAS = ("pfr", "ifr", "bca", "fcf", "fcb", "xmcd", "tz", "fuses", "memcfg")
 _PFR_SIZES = {"cmpa": 512, "cfpa": 512}
